@@ -135,6 +135,8 @@ class SRTWriter(BaseWriter):
 
             # Eliminate excessive line breaks
             new_content = new_content.strip()
+            while '\n\n' in new_content:
+                new_content = new_content.replace('\n\n', '\n')
 
             srt += f"{new_content}\n\n"
             count += 1
